@@ -17,7 +17,7 @@ RULES = {
     "C55.low_otherwise": "output is low in every cycle that is not within to_cycles cycles of a strobe",
 }
 PROBES = ["isolated_strobe", "gap_exactly_n", "gap_n_minus_1", "gap_n_plus_1", "overlapping", "back_to_back", "n_is_1",
-          "delay_allowed", "long_high", "output_fell"]
+          "delay_allowed", "long_high", "output_fell", "non_sync_domain_runs"]
 META = {
     "components_real": ["luna.gateware.utils.cdc.stretch_strobe_signal"],
     "components_stubbed": ["10-line wrapper Elaboratable that calls the function", "strobe source: literal waveform"],
@@ -36,6 +36,10 @@ def gen(rng, tier, index):
     n = rng.choice([1, 2, 2, 3, 3, 4, 5, 6, 7, 8, 9, 12, 15, 16, 17, 24, 31, 32, 33, 40, rng.randint(1, 40)])
     cfg = {"to_cycles": n, "allow_delay": rng.random() < 0.5, "own_output": rng.random() < 0.5,
            "explicit_domain": rng.random() < 0.3}
+    if index % 5 == 3:
+        # the stretcher lives in another clock domain (`domain=m.d.fast`), next to a `sync` domain that runs at a quarter of
+        # its rate: "cycles" are cycles of the requested domain
+        cfg["explicit_domain"] = "fast"
     bits = []
     total = rng.randint(3 * n + 10, 8 * n + (120 if tier == "quick" else 600))
     while len(bits) < total:
@@ -78,7 +82,12 @@ def _bench(cfg):
             m = Module()
             m.domains.sync = ClockDomain()      # to_cycles=1 is purely combinational
             kw = {}
-            if expl:
+            if expl == "fast":
+                m.domains.fast = ClockDomain()
+                kw["domain"] = m.d.fast
+                tick = Signal()
+                m.d.sync += tick.eq(~tick)       # keeps the (slower) sync domain alive in the design
+            elif expl:
                 kw["domain"] = m.d.sync
             if own:
                 stretch_strobe_signal(m, self.strobe, to_cycles=n, output=self.out, allow_delay=delay, **kw)
@@ -89,6 +98,8 @@ def _bench(cfg):
 
     def factory():
         w = Wrap()
+        if expl == "fast":
+            return make_bench(w, clocks={"fast": 1 / 240e6, "sync": 1 / 60e6}, main="fast", ins={"strobe": w.strobe}, outs={"out": w.out})
         return make_bench(w, clocks={"sync": 1 / 60e6}, main="sync", ins={"strobe": w.strobe}, outs={"out": w.out})
     return cached_bench(("c55", n, delay, own, expl), factory)
 
@@ -177,6 +188,8 @@ def run(scn):
         probes["n_is_1"] += 1
     if cfg["allow_delay"]:
         probes["delay_allowed"] += 1
+    if cfg.get("explicit_domain") == "fast":
+        probes["non_sync_domain_runs"] += 1
     run_len = 0
     for b in scn["ops"]:
         run_len = run_len + 1 if b else 0
